@@ -76,6 +76,17 @@ type history struct {
 	// old are sessions that were closed (their numbering is still checked)
 	old   []*simbmc.Session
 	creds hx.Creds
+	// endInLastAttempt makes the context end while the last scripted attempt is
+	// in flight (its reply is still delivered, then the library finds the
+	// context done between attempts) instead of inside one further transmission
+	endInLastAttempt bool
+}
+
+func (h *history) budget(script []hx.Outcome) int {
+	if h.endInLastAttempt && len(script) > 0 {
+		return len(script)
+	}
+	return len(script) + 1
 }
 
 // all returns every BMC-side session of the history.
@@ -142,7 +153,7 @@ func (h *history) second() error {
 func (h *history) commandOn(s *bmc.V2Session, cmd ipmi.Command, script []hx.Outcome) {
 	h.sc.Script, h.sc.Pos = script, 0
 	start := h.w.Net.Sends
-	ctx, cancel := h.w.Ctx(len(script) + 1)
+	ctx, cancel := h.w.Ctx(h.budget(script))
 	s.SendCommand(ctx, cmd)
 	cancel()
 	if n := h.w.Net.Sends - start; n > 1 {
@@ -155,7 +166,7 @@ func (h *history) commandOn(s *bmc.V2Session, cmd ipmi.Command, script []hx.Outc
 func (h *history) command(inSession bool, cmd ipmi.Command, script []hx.Outcome) {
 	h.sc.Script, h.sc.Pos = script, 0
 	start := h.w.Net.Sends
-	ctx, cancel := h.w.Ctx(len(script) + 1)
+	ctx, cancel := h.w.Ctx(h.budget(script))
 	if inSession {
 		h.sess.SendCommand(ctx, cmd)
 	} else {
@@ -196,6 +207,7 @@ func TestEnumerated(t *testing.T) {
 		if err != nil {
 			t.Fatalf("harness: %v", err)
 		}
+		h.endInLastAttempt = n%2 == 0
 		for i, sc := range scripts {
 			h.command(true, pickCmd(n+i), sc)
 			if i == 0 && len(scripts) > 1 {
@@ -273,6 +285,7 @@ func TestStateMachine(t *testing.T) {
 					t.Skip("history long enough")
 				}
 				steps++
+				h.endInLastAttempt = rapid.Bool().Draw(t, "contextEndsInLastAttempt")
 				call := rapid.SampledFrom(cat).Draw(t, "command").Prepare(t, h.w.BMC)
 				h.sc.Install(h.w.BMC)
 				h.command(true, call.Cmd, genScript())
